@@ -13,6 +13,7 @@ mkdir -p /tmp/scratch
 bad=0
 for s in "${ids[@]}"; do
   d=seeded/$s
+  if python3 -c "import json,sys;sys.exit(0 if json.load(open('$d/meta.json')).get('obsolete') else 1)"; then echo "$s - obsolete (skipped)"; continue; fi
   wt=/tmp/scratch/reseed.$$.$s
   git -C /repo worktree add -q --detach "$wt" HEAD || { echo "$s - WORKTREE-FAIL"; bad=1; continue; }
   if ! git -C "$wt" apply "$PWD/$d/patch.diff" 2>/dev/null; then
